@@ -350,7 +350,8 @@ def c16():
         "props_file": "Props/C16.v",
         "theorems": ["C16_batches", "C16_batch_sizes", "C16_ranges_lookup", "C16_file_seq",
                      "C16_file_seq_unsorted", "C16_names_sorted", "C16_digits_enough",
-                     "C16_split_merge", "C16_source_tie", "C16_parts_cover"],
+                     "C16_split_merge", "C16_source_tie", "C16_parts_cover",
+                     "C16_split_plan_digits", "C16_split_plan_names_sorted", "C16_split_plan_defined"],
         "model_files": ["Model/FpsUtil.v"],
         "suites": [suite_fps.suite_file_seq, suite_fps.suite_batches, suite_fps.suite_fps_cli, __import__('suite_numpysem').suite_numpysem],
         "search": suite_fps.search_c16,
